@@ -95,11 +95,13 @@ func (u *Unit) fieldAddr(base Term, structT types.Type, idx int) Term {
 	fn := u.fieldFn(structT, idx)
 	u.Fun(fn, []Sort{SV}, SV)
 	t := App(fn, SV, base)
+	u.P.mu.Lock()
 	kid, ok := u.P.fieldKinds[fn]
 	if !ok {
 		kid = len(u.P.fieldKinds) + 1
 		u.P.fieldKinds[fn] = kid
 	}
+	u.P.mu.Unlock()
 	u.Axiom(Eq(App("abase", SV, t), base))
 	u.Axiom(Eq(App("akind", SInt, t), IntLit(int64(kid))))
 	u.Axiom(Eq(App("aobj", SV, t), App("aobj", SV, base)))
